@@ -109,10 +109,11 @@ type runResult struct {
 	uncontracted map[string][]string
 	wall     time.Duration
 	solveMs  int64
+	ctxOf    map[*Obligation]*FnCtx
 }
 
 func (g *Gen) runAll(funcRe *regexp.Regexp, kinds map[string]bool, timeoutMs int, keep func(*Obligation) bool) *runResult {
-	res := &runResult{abstracted: map[string][]string{}, uncontracted: map[string][]string{}}
+	res := &runResult{abstracted: map[string][]string{}, uncontracted: map[string][]string{}, ctxOf: map[*Obligation]*FnCtx{}}
 	start := time.Now()
 	type job struct {
 		t    *fnTrans
@@ -165,12 +166,14 @@ func (g *Gen) runAll(funcRe *regexp.Regexp, kinds map[string]bool, timeoutMs int
 			defer wg.Done()
 			defer func() { <-sem }()
 			solveBatch(j.t.c, j.obls, timeoutMs)
+			resolveUnproved(j.t.c, j.t.c.obls, j.obls, timeoutMs)
 		}(j)
 	}
 	wg.Wait()
 	for _, j := range jobs {
 		res.obls = append(res.obls, j.obls...)
 		for _, o := range j.obls {
+			res.ctxOf[o] = j.t.c
 			res.solveMs += o.Ms
 		}
 	}
@@ -190,6 +193,8 @@ func main() {
 		cmdDump(os.Args[2:])
 	case "check":
 		cmdCheck(os.Args[2:])
+	case "sites":
+		cmdSites(os.Args[2:])
 	default:
 		fmt.Println("unknown command")
 		os.Exit(2)
@@ -205,6 +210,7 @@ func cmdSweep(args []string) {
 	verbose := fs.Bool("v", false, "print every obligation")
 	showModel := fs.Bool("model", false, "print models of failing obligations")
 	fs.Parse(args)
+	repoDir = *dir
 	g, err := loadGen(*dir)
 	if err != nil {
 		fmt.Fprintln(os.Stderr, err)
@@ -322,3 +328,110 @@ func cmdDump(args []string) {
 	}
 }
 
+
+// cmdSites lists the contract sites of the matching functions (and the cases of every select):
+// a helper for writing contracts.
+func cmdSites(args []string) {
+	fs := flag.NewFlagSet("sites", flag.ExitOnError)
+	dir := fs.String("dir", "/repo", "repository")
+	funcF := fs.String("func", "", "regexp on function key")
+	selOnly := fs.Bool("select", false, "only select statements")
+	fs.Parse(args)
+	repoDir = *dir
+	g, err := loadGen(*dir)
+	if err != nil {
+		fmt.Println("LOAD-ERROR:", err)
+		os.Exit(2)
+	}
+	re := regexp.MustCompile(*funcF)
+	for _, fn := range g.allFuncs {
+		if !g.inScope(fn) || !re.MatchString(g.fnKey(fn)) {
+			continue
+		}
+		t, err := g.translate(fn)
+		if err != nil {
+			fmt.Println("TRANSLATION-ERROR:", err)
+			continue
+		}
+		var names []string
+		for _, s := range t.sites {
+			names = append(names, s)
+		}
+		sort.Strings(names)
+		if !*selOnly {
+			fmt.Printf("%s: %s\n", t.key, strings.Join(names, " "))
+		}
+		for in, s := range t.sites {
+			sel, ok := in.(*ssa.Select)
+			if !ok {
+				continue
+			}
+			var cs []string
+			for _, c := range t.selCases[s] {
+				d := "<-" + c.desc
+				if c.send {
+					d = c.desc + "<-"
+				}
+				cs = append(cs, d)
+			}
+			fmt.Printf("%s %s blocking=%v (%s): %s\n", t.key, s, sel.Blocking, g.posStr(sel.Pos()), strings.Join(cs, " | "))
+		}
+	}
+}
+
+// resolveUnproved: an obligation that was not discharged must not be assumed by later ones.
+// Its assumption flag is switched off and every discharged obligation of the function that
+// comes after it is solved again, until nothing changes.  `all` is every obligation the
+// translation produced for the function (selected or not, in program order): unselected ones
+// with a flag are solved here too, because the selected ones may have been relying on them.
+func resolveUnproved(c *FnCtx, all, selected []*Obligation, timeoutMs int) {
+	isSel := map[*Obligation]bool{}
+	for _, o := range selected {
+		isSel[o] = true
+	}
+	// unselected, flagged obligations that precede some selected one: solve them quietly
+	last := -1
+	for i, o := range all {
+		if isSel[o] {
+			last = i
+		}
+	}
+	var extra []*Obligation
+	for i, o := range all {
+		if i < last && !isSel[o] && o.flag != "" && o.Status == "" && !o.Trivial {
+			extra = append(extra, o)
+		}
+	}
+	if len(extra) > 0 {
+		solveBatch1(c, extra, timeoutMs)
+	}
+	off := map[string]bool{}
+	for round := 0; round < 8; round++ {
+		changed := false
+		firstOff := -1
+		for i, o := range all {
+			if o.flag != "" && o.Status != "" && o.Status != "unsat" && !off[o.flag] {
+				off[o.flag] = true
+				c.byName[o.flag].body = "false"
+				changed = true
+				if firstOff < 0 {
+					firstOff = i
+				}
+			}
+		}
+		if !changed {
+			return
+		}
+		var redo []*Obligation
+		for i, o := range all {
+			if i > firstOff && o.Status == "unsat" && !o.Trivial && (isSel[o] || o.flag != "") {
+				o.Status, o.Solver = "", ""
+				redo = append(redo, o)
+			}
+		}
+		if len(redo) == 0 {
+			return
+		}
+		solveBatch(c, redo, timeoutMs)
+	}
+}
